@@ -61,6 +61,11 @@ CLAIMS = {
          "Generated corpora with field lengths on the edges of the 256 norm buckets and generated scoring queries (term, phrase, boolean, nested boost, const, dismax) are scored by tantivy and by an independent BM25 over statistics computed from the model documents and a frozen norm table; explain must equal the collected score, single-clause scores are bit-identical across collectors / K and, without deletes, across a merge into one segment.",
          "relative tolerance 1e-5 per scoring clause for sums; boosted clauses compared with tolerance (different but legitimate rounding of the product in explain); explain of non-matching documents is not exercised",
          "DESIGN.md §3 C12"),
+ "C17": ("exploration",
+         "invariant + metamorphic testing: generated histories run on a sorted and on an unsorted index; per-segment sort-order invariant, sequential model, per-uid record equality (proptest)",
+         "For every sort field type and direction, generated histories with reordered same-transaction deletes, merges of generated subsets and rollbacks are executed on a sorted index and identically on an unsorted one; after every commit and merge each segment's sort key (from the model) must be monotone with value-less documents first/last, the live set must equal the model and every document's canonical record (stored, fast, norms, postings) must equal the unsorted index's record of the same uid.",
+         "records are read through tantivy's public readers on both sides (a defect common to sorted and unsorted paths is invisible here; C07/C08/C09 cover the readers against models)",
+         "DESIGN.md §3 C17"),
  "C18": ("exploration",
          "model-based lifecycle testing of the writer lock (two-state free/held model) over generated call sequences on Ram/Mmap/Sim directories, thread races and competing child processes (proptest)",
          "Generated sequences of writer creations (valid and invalid), second handles, rollbacks, drops, wait_merging_threads, worker kills by injected I/O errors and creation races from 2-8 threads, plus two child processes competing on one MmapDirectory, are judged by a free/held model: creation succeeds iff free, a held lock rejects every attempt without disturbing the holder, and the lock follows the writer's lifetime.",
